@@ -74,7 +74,8 @@ PROPS = {
         "level_note": "Trusted: Go crypto/x509 for building certificates (serials it refuses to encode are outside the domain); explores sampled histories only; listings may contain non-matching extras without alarm (the statement only demands inclusion).",
         "assumptions": ["serial numbers are non-negative and encodable by crypto/x509 (<= 20 octets)"],
         "units": [{"pkg": "x/cert/keeper", "run": "^TestVerif_C17_Replay$", "checks": 1, "timeout": 300},
-                  {"pkg": "x/cert/keeper", "run": "^TestVerif_C17$", "checks": {Q: 400, T: 60000}, "shards": {Q: 2, T: 16}, "steps": 60, "timeout": {Q: 600, T: 3000}, "shrinktime": "30s"}],
+                  {"pkg": "x/cert/keeper", "run": "^TestVerif_C17$", "checks": {Q: 400, T: 60000}, "shards": {Q: 2, T: 16}, "steps": 60, "timeout": {Q: 600, T: 3000}, "shrinktime": "30s"},
+                  {"pkg": "app", "run": "^TestVerif_C17_Chain$", "checks": {Q: 40, T: 1200}, "shards": {Q: 2, T: 16}, "steps": 60, "timeout": {Q: 600, T: 3000}, "shrinktime": "30s"}],
     },
     "C19": {
         "level": "exploration", "floor": 0.7,
